@@ -5,6 +5,7 @@ def register(reg):
     register_init(reg)
     register_assemble(reg)
     register_traverse(reg)
+    register_traverse_v2(reg)
     C = reg.contract
 
     # ------------------------------------------------------------------ C06: sort_meta
@@ -228,3 +229,84 @@ def register_traverse(reg):
                  ]}},
       notes="leaf case (path is a regular file), for every file size and piece length; the directory branch (sorted(os.listdir), "
             "recursion) is decided by the bounded harness")
+
+
+def _v2_setup(p, env):
+    """self.kws as TorrentFileV2.__init__ builds it; progress mode 0 (the progress display is not modelled)"""
+    from pyvc.values import HDict, VInt, VNone
+    obj = p.heap[env["self"].rid]
+    obj.fields["kws"] = p.alloc(HDict(over={"progress": VInt(0), "progress_bar": VNone()}))
+
+
+def _hybrid_setup(p, env):
+    from pyvc.values import HDict, VInt, VNone
+    obj = p.heap[env["self"].rid]
+    obj.fields["kws"] = p.alloc(HDict(over={"progress": VInt(0), "progress_bar": VNone(), "pad": obj.fields["pad_flag"]}))
+
+
+def _leaf_ensures(h, amount):
+    """postconditions of the leaf case shared by TorrentFileV2._traverse and TorrentFileHybrid._traverse; h names the local
+    hasher object (an existential witness at call sites)"""
+    LEAF = "result['']"
+    CONTENT = "fs_data(path)"
+    PR = f"piece_roots({CONTENT}, {amount})"
+    return [
+        ("C02", "leaf_records_the_exact_length", f"('' in result) and {LEAF}['length'] == len({CONTENT})"),
+        ("C02", "empty_file_carries_no_root", f"implies(len({CONTENT}) == 0, not ('pieces root' in {LEAF}))"),
+        ("C02", "pieces_root_is_the_merkle_root_over_the_padded_piece_layer",
+         f"implies(len({CONTENT}) > 0, ('pieces root' in {LEAF}) and {LEAF}['pieces root'] == mroot({h}.layer_hashes))"),
+        ("C02", "padded_piece_layer_is_the_piece_layer_of_the_content_then_zero_piece_roots",
+         f"implies(len({CONTENT}) > 0, "
+         f"{h}.layer_hashes == cat({PR}, repeat_digest(mroot(zero_digests({amount})), len({h}.layer_hashes) - len({PR}))))"),
+        ("C02", "padded_to_the_next_power_of_two",
+         f"implies(len({CONTENT}) > 0, is_pow2(len({h}.layer_hashes)) and "
+         f"len({PR}) <= len({h}.layer_hashes) and (len({h}.layer_hashes) < 2 * len({PR}) or len({h}.layer_hashes) == 1))"),
+        ("C02", "piece_layers_entry_exactly_for_files_larger_than_a_piece",
+         f"implies(len({CONTENT}) > 0, (k in self.piece_layers) == ((k in old(self.piece_layers)) or "
+         f"(len({CONTENT}) > self.piece_length and k == {LEAF}['pieces root']))) and "
+         f"implies(len({CONTENT}) == 0, (k in self.piece_layers) == (k in old(self.piece_layers)))"),
+        ("C02", "the_entry_is_the_piece_layer_of_the_content",
+         f"implies(len({CONTENT}) > self.piece_length, self.piece_layers[{LEAF}['pieces root']] == bytes_join({PR}))"),
+    ]
+
+
+def register_traverse_v2(reg):
+    C = reg.contract
+    AM = "(self.piece_length // 16384)"
+    C("torrentfile.torrent.TorrentFileV2._traverse",
+      props=["C02", "C10"],
+      params={"self": {"cls": "torrentfile.torrent.TorrentFileV2",
+                       "fields": {"piece_layers": "dict", "piece_length": "int", "path": "str"}}, "path": "str"},
+      setup=_v2_setup,
+      ghost={"k": "bytes"},
+      requires=["fs_isfile(path)", "self.piece_length >= 16384 and is_pow2(self.piece_length)"],
+      returns="dict",
+      ensures=_leaf_ensures("fhash", AM),
+      raises={"BaseException": {}},
+      notes="leaf case (path is a regular file), for every file size and piece length, on top of the HasherV2.process_file contract; "
+            "the directory branch (sorted(os.listdir), recursion) is decided by the bounded harness")
+    C("torrentfile.torrent.TorrentFileHybrid._traverse",
+      props=["C02", "C03", "C10"],
+      params={"self": {"cls": "torrentfile.torrent.TorrentFileHybrid",
+                       "fields": {"piece_layers": "dict", "piece_length": "int", "path": "str", "files": "list", "pieces": "list[bytes]",
+                                  "hashes": "list", "pad_flag": "bool"}}, "path": "str"},
+      setup=_hybrid_setup,
+      ghost={"k": "bytes"},
+      requires=["fs_isfile(path)", "self.piece_length >= 16384 and is_pow2(self.piece_length)"],
+      returns="dict",
+      ensures=_leaf_ensures("file_hash", AM) + [
+          ("C03", "v1_list_gets_the_file_then_its_padding_entry",
+           "len(self.files) >= len(old(self.files)) + 1 and "
+           "self.files[len(old(self.files))]['length'] == len(fs_data(path)) and "
+           "self.files[len(old(self.files))]['path'] == relpath_components(path, self.path)"),
+          ("C03", "v1_pieces_of_the_file_are_appended",
+           "implies(len(fs_data(path)) > 0, self.pieces == cat(old(self.pieces), hybrid_pieces(fs_data(path), self.piece_length, self.pad_flag)))"),
+          ("C03", "padding_entry_exactly_when_padding_is_declared_and_the_last_piece_is_short",
+           "implies(len(fs_data(path)) > 0 and self.pad_flag and len(fs_data(path)) % self.piece_length != 0, "
+           "len(self.files) == len(old(self.files)) + 2 and self.files[len(old(self.files)) + 1]['attr'] == 'p' and "
+           "self.files[len(old(self.files)) + 1]['length'] == self.piece_length - len(fs_data(path)) % self.piece_length) and "
+           "implies(len(fs_data(path)) == 0 or not self.pad_flag or len(fs_data(path)) % self.piece_length == 0, "
+           "len(self.files) == len(old(self.files)) + 1)"),
+      ],
+      raises={"BaseException": {}},
+      notes="leaf case, on top of the HasherHybrid.process_file contract")
